@@ -18,6 +18,7 @@ import (
 
 	jsonrpc "github.com/filecoin-project/go-jsonrpc"
 
+	"verif/harness/internal/c14"
 	"verif/harness/internal/corr"
 	"verif/harness/internal/fw"
 	"verif/harness/internal/hk"
@@ -445,6 +446,7 @@ func endpoints(evs []hk.Event) (srv []int, cli []int) {
 
 // replay checks every endpoint's correlation trace against the model.
 func (w *world) replay(d *fw.Driver, res *fw.Result, sig string) error {
+	c14.CheckAnswers(res, w.e.PX.Frames(), sig)
 	evs := w.e.RT.Events()
 	srv, cli := endpoints(evs)
 	if len(srv) != len(cli) {
